@@ -29,6 +29,7 @@ type Property struct {
 	// Controls: Go source added to package gkvlite as zz_verif_control.go; every
 	// expectation must be reported as violated on the control world.
 	ControlSrc   string
+	ControlExtra []string // further control files (own imports)
 	ControlEdits []ControlEdit
 	Expect       []Expect
 }
@@ -151,6 +152,10 @@ func loadKnown() []KnownFinding {
 
 func run() int {
 	start := time.Now()
+	for _, f := range lateAttach {
+		f()
+	}
+	lateAttach = nil
 	p := properties[*flagProp]
 	if p == nil {
 		fmt.Printf("unknown property %q\n", *flagProp)
@@ -355,6 +360,9 @@ func replay(rep *Report, path string) int {
 // runControls loads the control world and requires every expectation to be violated.
 func runControls(p *Property) (bool, []string) {
 	overlay := map[string][]byte{filepath.Join(*flagRepo, "zz_verif_control.go"): []byte(p.ControlSrc)}
+	for i, src := range p.ControlExtra {
+		overlay[filepath.Join(*flagRepo, fmt.Sprintf("zz_verif_control_%d.go", i+2))] = []byte(src)
+	}
 	for _, e := range p.ControlEdits {
 		file, src, err := spliceAtFuncStart(*flagRepo, e.Func, e.Stmt, overlay)
 		if err != nil {
